@@ -50,16 +50,15 @@ def removeCallback (cbs : Cbs) (n : Name) : Cbs × Cbs :=
 abbrev Edge := Name × Name
 
 /-- `cb.callPrecedence(irc)` as names: (called before me, called after me).
-For a plain callback the two asserts `self not in after/before` sit behind the `callPrecedence`
-entry of `__firewalled__`: when one fires the firewall logs it and returns `([], [])`. -/
+A plain callback that names itself appears in its own list (edge `(p, p)`): `addCallback` then
+rejects it like any other cycle. -/
 def precedence (cbs : Cbs) (p : Plugin) : List Name × List Name :=
   match p.kind with
   | .owner => ([], (cbs.filter fun q => q.name != p.name).map (·.name))
   | .misc => ((cbs.filter fun q => q.name != p.name).map (·.name), [])
   | .plain =>
-    let after := (p.callBefore.filterMap (getCallback cbs)).map (·.name)
-    let before := (p.callAfter.filterMap (getCallback cbs)).map (·.name)
-    if after.contains p.name || before.contains p.name then ([], []) else (before, after)
+    ((p.callAfter.filterMap (getCallback cbs)).map (·.name),
+     (p.callBefore.filterMap (getCallback cbs)).map (·.name))
 
 /-- the edge set built by `addCallback`: `(a, b)` = `a` is called before `b` -/
 def edgesOf (cbs : Cbs) : List Edge :=
@@ -106,7 +105,8 @@ def addCallback (ord : Ord) (cbs : Cbs) (p : Plugin) : Except (Err × Cbs) Cbs :
 structure Faults where
   /-- `loadPluginModule` raises `ImportError` -/
   importError : Bool := false
-  /-- `loadPluginModule` raises something else (a `SyntaxError` in the module …) -/
+  /-- `loadPluginModule` raises something else (a `SyntaxError` in the module …): `load` lets it
+      propagate, `reload` first puts the old callbacks back -/
   importOther : Bool := false
   /-- the constructor `module.Class(irc)` raises -/
   ctorRaises : Bool := false
@@ -175,7 +175,10 @@ def reload (ord : Ord) (cbs : Cbs) (name : Name) (avail : Option Plugin) (f : Fa
       match readd ord good bad with
       | .ok cbs' => (.error "no plugin", cbs')
       | .error (_, cbs') => (.exception, cbs')
-    else if f.importOther then (.exception, good)           -- not an ImportError: nothing is restored
+    else if f.importOther then                              -- not an ImportError: old callbacks put back, re-raised
+      match readd ord good bad with
+      | .ok cbs' => (.exception, cbs')
+      | .error (_, cbs') => (.exception, cbs')
     else if f.ctorRaises then (.exception, good)            -- old instance dead, new one never built
     else
       match avail with
